@@ -167,10 +167,10 @@ func randGroup(rnd *hlib.Rand, maxM, maxT, maxP int) (*Group, string) {
 // ---------------- sticky rebalance chains
 
 type chain struct {
-	g        *Group
-	gen      int
-	prevGood bool // previous plan valid and balanced
-	nextID   int
+	g         *Group
+	gen       int
+	prevGood  bool // previous plan valid and balanced
+	nextID    int
 	identical bool
 }
 
